@@ -110,6 +110,9 @@ type Node struct {
 	// Noise is inert extra keywords (unsupported keywords, unknown keys)
 	// rendered verbatim after everything else.
 	Noise []jv.KV
+	// Deps: dependentSchemas entries on this (non-root) schema; inert for the tool,
+	// written under the legacy keyword "dependencies" when the spelling says so
+	Deps []Prop
 
 	// AnyAsTrue renders a KAny node as `true` instead of `{}`.
 	AnyAsTrue bool
@@ -403,6 +406,17 @@ func (n *Node) Render(sp *Spelling) jv.V {
 			eo = append(eo, jv.KV{K: "imports", V: jv.V{K: jv.Arr, A: ia}})
 		}
 		add("goJSONSchema", jv.V{K: jv.Obj, O: eo})
+	}
+	if len(n.Deps) > 0 {
+		do := make([]jv.KV, 0, len(n.Deps))
+		for _, d := range n.Deps {
+			do = append(do, jv.KV{K: d.Name, V: d.Node.Render(sp)})
+		}
+		k := "dependentSchemas"
+		if sp != nil && sp.LegacyDeps {
+			k = "dependencies"
+		}
+		add(k, jv.V{K: jv.Obj, O: do})
 	}
 	o = append(o, n.Noise...)
 	return jv.V{K: jv.Obj, O: o}
